@@ -82,17 +82,62 @@ Proof.
     eapply IH. exact H.
 Qed.
 
+Lemma clsuf_cons' a r : lsuf (a :: r) = if Cert.inT child (a :: r) then a :: r else lsuf r.
+Proof. apply (lsuf_cons child). Qed.
+Lemma clsuf_len' r : (length (lsuf r) <= length r)%nat.
+Proof.
+  induction r as [|a r IH]; [cbn; lia|]. rewrite clsuf_cons'.
+  destruct (Cert.inT child (a :: r)); cbn [length]; lia.
+Qed.
+
+(* the transition loop with its iteration count: "iterations so far + depth of the current node"
+   grows by at most 2 per character *)
+Lemma cnext_loop_ticks c mc : mapper_get tget c = Some mc -> forall fuel u s t,
+  walk ROOT u = Some s -> (length u < fuel)%nat ->
+  exists s' t', cw_next_loop sget fuel s mc t = Ok (s', t')
+                /\ walk ROOT (lsuf (u ++ [c])) = Some s'
+                /\ (N.to_nat t' + length (lsuf (u ++ [c])) <= N.to_nat t + length u + 2)%nat.
+Proof.
+  intros Hm. induction fuel as [|fuel IH]; intros u s t Hw Hlen; [lia|].
+  pose proof (cnode_ok u s Hw) as NF.
+  cbn [cw_next_loop]. destruct NF as [NFroot _ NFfail _ NFchild]. destruct (NFchild c) as [r Hr].
+  assert (Hchild : cw_child sget s mc = Ok r) by (unfold child, cwc_child in Hr; rewrite Hm in Hr; exact Hr).
+  rewrite Hchild. cbn [bind]. destruct r as [t1|].
+  - exists t1, (t + 1). split; [reflexivity|].
+    assert (Hwt : walk ROOT (u ++ [c]) = Some t1) by (rewrite (walk_snoc child), Hw, Hr; reflexivity).
+    rewrite (lsuf_of_node child) by (unfold Cert.inT; rewrite Hwt; reflexivity).
+    split; [exact Hwt|]. rewrite app_length. cbn [length]. lia.
+  - assert (Hnot : Cert.inT child (u ++ [c]) = false).
+    { unfold Cert.inT. rewrite (walk_snoc child), Hw, Hr. reflexivity. }
+    destruct u as [|a r].
+    + cbn in Hw. inversion Hw; subst s. rewrite N.eqb_refl.
+      exists ROOT, (t + 1). split; [reflexivity|]. cbn [app] in *. rewrite clsuf_cons', Hnot.
+      split; [reflexivity|]. cbn. lia.
+    + destruct (s =? ROOT) eqn:Es.
+      { apply N.eqb_eq in Es. pose proof (NFroot Es). discriminate. }
+      destruct (NFfail a r eq_refl) as [f [Hf Hwf]].
+      unfold failof, cwc_failof in Hf. destruct (cst_at sget s) as [st| | | |]; cbn [bind] in Hf; try discriminate.
+      inversion Hf; subst f. cbn [bind].
+      destruct (IH (lsuf r) (c_fail st) (t + 1) Hwf) as (s' & t' & Hs' & Hw' & Ht').
+      { pose proof (clsuf_len' r). cbn [length] in Hlen. lia. }
+      exists s', t'. split; [exact Hs'|].
+      cbn [app]. rewrite clsuf_cons'. cbn [app] in Hnot. rewrite Hnot.
+      rewrite (lsuf_snoc child). split; [exact Hw'|].
+      pose proof (clsuf_len' r). cbn [length]. lia.
+Qed.
+
 Lemma cstep w c s t : walk ROOT (lsuf w) = Some s ->
   exists s' t', cw_next_state sget tget nslots s c t = Ok (s', t')
-                /\ walk ROOT (lsuf (w ++ [c])) = Some s'.
+                /\ walk ROOT (lsuf (w ++ [c])) = Some s'
+                /\ (N.to_nat t' + length (lsuf (w ++ [c])) <= N.to_nat t + length (lsuf w) + 2)%nat.
 Proof.
   intros Hw. unfold cw_next_state. destruct (mapper_get tget c) as [mc|] eqn:Em.
-  - destruct (g_next_step V veqb veqb_sound child failof outposof outat labels cwc_plen pvs
-                cchild_labels maxdepth nouts ccert_tree w c s (cfuel0 nslots) Hw) as [s' [H1 H2]].
-    { unfold cfuel0, nslots, cw_nslots, maxdepth. rewrite Nat2N.id. lia. }
-    destruct (cnext_loop_gen c mc Em _ s t s' H1) as [t' Ht]. eauto.
+  - pose proof (cnode_ok _ _ Hw) as NF.
+    destruct (cnext_loop_ticks c mc Em (cfuel0 nslots) (lsuf w) s t Hw) as (s' & t' & H1 & H2 & H3).
+    { destruct NF as [_ Hd _ _ _]. unfold cfuel0, nslots, cw_nslots. rewrite Nat2N.id. unfold maxdepth in Hd. lia. }
+    exists s', t'. rewrite (lsuf_snoc child). auto.
   - exists ROOT, t. split; [reflexivity|].
-    rewrite (lsuf_unlabelled child labels cchild_labels w c); [reflexivity|].
+    rewrite (lsuf_unlabelled child labels cchild_labels w c); [split; [reflexivity|cbn [length]; lia]|].
     intros Hin. unfold labels, cwc_labels in Hin. apply filter_In in Hin as [_ Hin]. rewrite Em in Hin. discriminate.
 Qed.
 
@@ -204,14 +249,17 @@ Qed.
 
 Lemma cnos_run h : forall cs w s t k,
   h = w ++ cs -> Forall scalar cs -> walk ROOT (lsuf w) = Some s -> (length cs < k)%nat ->
+  (N.to_nat t + length (lsuf w) <= 2 * length w)%nat ->
   exists it', drain V cnos_next' k (cnos_it_at (encode_utf8 cs) (bo w) s t)
               = Ok (flat_map (fun i => first1 (map (mk (bo (firstn i h))) (sufpats (firstn i h))))
-                             (seq (S (length w)) (length cs)), it').
+                             (seq (S (length w)) (length cs)), it')
+              /\ (N.to_nat (x_ticks it') <= 2 * length h)%nat.
 Proof.
-  induction cs as [|c cs IH]; intros w s t k Hh Hs Hw Hk.
-  - destruct k as [|k]; [cbn in Hk; lia|]. cbn [drain]. unfold cnos_next, cnos_it_at. cbn. eexists; reflexivity.
+  induction cs as [|c cs IH]; intros w s t k Hh Hs Hw Hk Hpot.
+  - destruct k as [|k]; [cbn in Hk; lia|]. cbn [drain]. unfold cnos_next, cnos_it_at. cbn. eexists. split; [reflexivity|].
+    cbn [x_ticks]. rewrite Hh, app_nil_r. lia.
   - inversion Hs as [|? ? Hc Hs']; subst.
-    destruct (cstep w c s t Hw) as (s' & t' & Hstep & Hw').
+    destruct (cstep w c s t Hw) as (s' & t' & Hstep & Hw' & Htk).
     destruct (coutputs_at (w ++ [c]) s' Hw') as (st & os & Hst & Hch & Hmap & _).
     assert (Hh' : w ++ c :: cs = (w ++ [c]) ++ cs) by (rewrite <- app_assoc; reflexivity).
     assert (Hlen : length (w ++ [c]) = S (length w)) by (rewrite app_length; cbn [length]; lia).
@@ -229,13 +277,13 @@ Proof.
       apply (cnos_scan_fuel (length (encode_utf8 cs)) _ (le_n _)). pose proof (enc_cons_length c cs). lia. }
     destruct os as [|o os'].
     + apply cchain_nil in Hch.
-      destruct (IH (w ++ [c]) s' t' (S k) Hh' Hs' Hw') as [it' Hd]; [cbn [length] in Hk; lia|].
-      exists it'. cbn [map]. rewrite first1_nil. cbn [app]. rewrite Hlen in Hd. rewrite <- Hd.
+      destruct (IH (w ++ [c]) s' t' (S k) Hh' Hs' Hw') as [it' [Hd Hti]]; [cbn [length] in Hk; lia|rewrite Hlen; lia|].
+      exists it'. split; [|exact Hti]. cbn [map]. rewrite first1_nil. cbn [app]. rewrite Hlen in Hd. rewrite <- Hd.
       cbn [drain]. unfold cnos_next at 1. cbn [cnos_it_at x_src s_rest s_pulled x_state x_ticks].
       rewrite (Hscan _ (le_n _)). rewrite Hch, N.eqb_refl. reflexivity.
     + apply cchain_cons in Hch as (Hp & Hout & _).
-      destruct (IH (w ++ [c]) s' t' k Hh' Hs' Hw') as [it' Hd]; [cbn [length] in Hk; lia|].
-      exists it'. cbn [map]. rewrite first1_cons. cbn [app].
+      destruct (IH (w ++ [c]) s' t' k Hh' Hs' Hw') as [it' [Hd Hti]]; [cbn [length] in Hk; lia|rewrite Hlen; lia|].
+      exists it'. split; [|exact Hti]. cbn [map]. rewrite first1_cons. cbn [app].
       cbn [drain]. unfold cnos_next at 1. cbn [cnos_it_at x_src s_rest s_pulled x_state x_ticks].
       rewrite (Hscan _ (le_n _)). rewrite (proj2 (N.eqb_neq _ _) Hp).
       unfold outat, cwc_outat in Hout. rewrite Hout. cbn [bind].
@@ -326,8 +374,9 @@ Theorem cw_nosuffix_correct_lemma cs : Forall scalar cs ->
   cw_find_overlapping_no_suffix_iter V A (encode_utf8 cs) = Ok (map (to_bytes cs) (spec_nosuffix V pvs cs)).
 Proof.
   intros Hs. unfold cw_find_overlapping_no_suffix_iter. rewrite ckind_std. unfold run_iter.
-  destruct (cnos_run cs cs [] ROOT 0 (S (S (length (encode_utf8 cs)))) eq_refl Hs cwalk_root0) as [it' Hd].
+  destruct (cnos_run cs cs [] ROOT 0 (S (S (length (encode_utf8 cs)))) eq_refl Hs cwalk_root0) as [it' [Hd _]].
   { pose proof (enc_len_ge cs). lia. }
+  { cbn. lia. }
   unfold nos_init, src_of. unfold cnos_it_at, bo in Hd. cbn [length encode_utf8 flat_map] in Hd.
   fold sget oget tget nslots. rewrite Hd. cbn [bind].
   rewrite triples_ok.
@@ -340,6 +389,17 @@ Proof.
   - apply Forall_forall. intros m Hm. apply in_flat_map in Hm as [e [He Hm]].
     apply cIn_first1 in Hm. apply in_map_iff in Hm as [lv [E Hl]]. subst m.
     apply sufpats_blen in Hl. cbn [BwCert.mk m_length m_end]. exact Hl.
+Qed.
+
+(* C13: the no-suffix scan of a text of n characters takes at most 2n iterations of the transition loop *)
+Theorem cw_nosuffix_linear_lemma cs : Forall scalar cs ->
+  exists ms it', drain V cnos_next' (S (S (length (encode_utf8 cs)))) (nos_init (encode_utf8 cs)) = Ok (ms, it')
+                 /\ (N.to_nat (x_ticks it') <= 2 * length cs)%nat.
+Proof.
+  intros Hs. destruct (cnos_run cs cs [] ROOT 0 (S (S (length (encode_utf8 cs)))) eq_refl Hs cwalk_root0) as [it' [Hd Ht]].
+  { pose proof (enc_len_ge cs). lia. }
+  { cbn. lia. }
+  unfold cnos_it_at, bo in Hd. cbn [length encode_utf8 flat_map] in Hd. eauto.
 Qed.
 
 (* ---- FindOverlappingIterator --------------------------------------------------------------------- *)
@@ -370,16 +430,20 @@ Definition covl_expected (h : list N) (from n : nat) : list (mtch V) :=
 
 Lemma covl_run h : forall cs w s pos t,
   h = w ++ cs -> Forall scalar cs -> walk ROOT (lsuf w) = Some s ->
-  exists it', forall k, (length (covl_expected h (S (length w)) (length cs)) < k)%nat ->
+  (N.to_nat t + length (lsuf w) <= 2 * length w)%nat ->
+  exists it', (N.to_nat (v_ticks it') <= 2 * length h)%nat /\
+    forall k, (length (covl_expected h (S (length w)) (length cs)) < k)%nat ->
     drain V covl_next' k (covl_it_at (encode_utf8 cs) (bo w) s pos 0 t)
     = Ok (covl_expected h (S (length w)) (length cs), it').
 Proof.
   unfold covl_expected.
-  induction cs as [|c cs IH]; intros w s pos t Hh Hs Hw.
-  - eexists. intros k Hk. destruct k as [|k]; [cbn in Hk; lia|]. cbn [drain].
-    unfold covl_next, covl_it_at. cbn. reflexivity.
+  induction cs as [|c cs IH]; intros w s pos t Hh Hs Hw Hpot.
+  - eexists. split; cycle 1.
+    + intros k Hk. destruct k as [|k]; [cbn in Hk; lia|]. cbn [drain].
+      unfold covl_next, covl_it_at. cbn. reflexivity.
+    + cbn [v_ticks]. rewrite Hh, app_nil_r. lia.
   - inversion Hs as [|? ? Hc Hs']; subst.
-    destruct (cstep w c s t Hw) as (s' & t' & Hstep & Hw').
+    destruct (cstep w c s t Hw) as (s' & t' & Hstep & Hw' & Htk).
     destruct (coutputs_at (w ++ [c]) s' Hw') as (st & os & Hst & Hch & Hmap & _).
     assert (Hh' : w ++ c :: cs = (w ++ [c]) ++ cs) by (rewrite <- app_assoc; reflexivity).
     assert (Hlen : length (w ++ [c]) = S (length w)) by (rewrite app_length; cbn [length]; lia).
@@ -396,14 +460,14 @@ Proof.
       apply (covl_scan_fuel (length (encode_utf8 cs)) _ (le_n _)). pose proof (enc_cons_length c cs). lia. }
     destruct os as [|o os'].
     + apply cchain_nil in Hch.
-      destruct (IH (w ++ [c]) s' (bo (w ++ [c])) t' Hh' Hs' Hw') as (it' & Hd).
-      exists it'. intros k Hk. cbn [map app] in *. destruct k as [|k]; [lia|].
+      destruct (IH (w ++ [c]) s' (bo (w ++ [c])) t' Hh' Hs' Hw' ltac:(rewrite Hlen; lia)) as (it' & Hti & Hd).
+      exists it'. split; [exact Hti|]. intros k Hk. cbn [map app] in *. destruct k as [|k]; [lia|].
       rewrite Hlen in Hd. rewrite <- (Hd (S k)) by lia.
       cbn [drain]. unfold covl_next at 1. cbn [covl_it_at v_outpos v_src s_rest s_pulled v_state v_pos v_ticks].
       rewrite N.eqb_refl. rewrite (Hscan _ (le_n _)). rewrite Hch, N.eqb_refl. reflexivity.
     + pose proof Hch as Hch0. apply cchain_cons in Hch as (Hp & Hout & fuel' & Hch').
-      destruct (IH (w ++ [c]) s' (bo (w ++ [c])) t' Hh' Hs' Hw') as (it' & Hd).
-      exists it'. intros k Hk. rewrite app_length, map_length in Hk. cbn [length] in Hk.
+      destruct (IH (w ++ [c]) s' (bo (w ++ [c])) t' Hh' Hs' Hw' ltac:(rewrite Hlen; lia)) as (it' & Hti & Hd).
+      exists it'. split; [exact Hti|]. intros k Hk. rewrite app_length, map_length in Hk. cbn [length] in Hk.
       destruct k as [|k]; [lia|].
       cbn [drain]. unfold covl_next at 1. cbn [covl_it_at v_outpos v_src s_rest s_pulled v_state v_pos v_ticks].
       rewrite N.eqb_refl. rewrite (Hscan _ (le_n _)). rewrite (proj2 (N.eqb_neq _ _) Hp).
@@ -434,7 +498,7 @@ Theorem cw_overlapping_correct_lemma cs : Forall scalar cs ->
   cw_find_overlapping_iter V A (encode_utf8 cs) = Ok (map (to_bytes cs) (spec_overlapping V pvs cs)).
 Proof.
   intros Hs. unfold cw_find_overlapping_iter. rewrite ckind_std. unfold run_iter.
-  destruct (covl_run cs cs [] ROOT 0%nat 0 eq_refl Hs cwalk_root0) as [it' Hd].
+  destruct (covl_run cs cs [] ROOT 0%nat 0 eq_refl Hs cwalk_root0 ltac:(cbn; lia)) as [it' [_ Hd]].
   unfold ovl_init, src_of. unfold covl_it_at, bo in Hd. cbn [length encode_utf8 flat_map] in Hd.
   fold sget oget tget nslots. rewrite Hd.
   - cbn [bind]. rewrite triples_ok.
@@ -451,6 +515,21 @@ Proof.
     assert (forall x, In x (seq 1 (length cs)) -> (length (map (mk (bo (firstn x cs))) (sufpats (firstn x cs))) <= nouts)%nat) as Hx.
     { intros x _. rewrite map_length. apply csufpats_bound. }
     specialize (Hle Hx). pose proof (enc_len_ge cs). fold nouts. nia.
+Qed.
+
+(* C13: the overlapping scan of a text of n characters takes at most 2n iterations of the transition loop *)
+Theorem cw_overlapping_linear_lemma cs : Forall scalar cs ->
+  exists ms it', drain V covl_next' (S (S (length (encode_utf8 cs)) * S nouts)) (ovl_init (encode_utf8 cs)) = Ok (ms, it')
+                 /\ (N.to_nat (v_ticks it') <= 2 * length cs)%nat.
+Proof.
+  intros Hs. destruct (covl_run cs cs [] ROOT 0%nat 0 eq_refl Hs cwalk_root0 ltac:(cbn; lia)) as [it' [Ht Hd]].
+  unfold covl_it_at, bo in Hd. cbn [length encode_utf8 flat_map] in Hd. eexists. exists it'. split; [|exact Ht]. apply Hd.
+  unfold covl_expected.
+  pose proof (cflat_map_length_le (fun i => map (mk (bo (firstn i cs))) (sufpats (firstn i cs))) nouts (seq 1 (length cs))) as Hle.
+  rewrite seq_length in Hle.
+  assert (forall x, In x (seq 1 (length cs)) -> (length (map (mk (bo (firstn x cs))) (sufpats (firstn x cs))) <= nouts)%nat) as Hx.
+  { intros x _. rewrite map_length. apply csufpats_bound. }
+  specialize (Hle Hx). pose proof (enc_len_ge cs). fold nouts. nia.
 Qed.
 
 (* ---- FindIterator ------------------------------------------------------------------------------- *)
@@ -474,21 +553,24 @@ Qed.
 Lemma cfind_scan_spec h w0 : forall cs w s t fuel,
   h = w0 ++ w ++ cs -> Forall scalar cs -> walk ROOT (lsuf w) = Some s ->
   (length (encode_utf8 cs) < fuel)%nat ->
+  (N.to_nat t + length (lsuf w) <= 2 * (length w0 + length w))%nat ->
   exists r it', cfind_scan V sget oget tget nslots fuel (encode_utf8 cs) (bo w0 + bo w) s t = Ok (r, it') /\
     match first_end V pvs h (length w0) (seq (S (length w0 + length w)) (length cs)) with
-    | None => r = None
+    | None => r = None /\ (N.to_nat (f_ticks it') <= 2 * length h)%nat
     | Some x => exists m, r = Some m /\ BwCert.tr_m V m = to_bytes h x
                           /\ (N.to_nat (m_length m) <= m_end m)%nat
                           /\ (length w0 + length w < snd (fst x) <= length h)%nat
                           /\ s_rest (f_src it') = encode_utf8 (skipn (snd (fst x)) h)
                           /\ s_pulled (f_src it') = bo (firstn (snd (fst x)) h)
+                          /\ (N.to_nat (f_ticks it') <= 2 * snd (fst x))%nat
     end.
 Proof.
-  induction cs as [|c cs IH]; intros w s t fuel Hh Hs Hw Hf.
+  induction cs as [|c cs IH]; intros w s t fuel Hh Hs Hw Hf Hphi.
   - destruct fuel as [|fuel]; [cbn in Hf; lia|]. cbn [cfind_scan length seq first_end encode_utf8 flat_map dec_next bind].
-    eexists. eexists. split; reflexivity.
+    eexists. eexists. split; [reflexivity|]. split; [reflexivity|].
+    cbn [f_ticks]. subst h. rewrite !app_length. cbn [length]. lia.
   - inversion Hs as [|? ? Hc Hs']; subst.
-    destruct (cstep w c s t Hw) as (s' & t' & Hstep & Hw').
+    destruct (cstep w c s t Hw) as (s' & t' & Hstep & Hw' & Htk).
     destruct (coutputs_at (w ++ [c]) s' Hw') as (st & os & Hst & Hch & Hmap & _).
     set (h := w0 ++ w ++ c :: cs) in *.
     assert (Hh' : h = w0 ++ (w ++ [c]) ++ cs) by (unfold h; rewrite <- !app_assoc; reflexivity).
@@ -515,13 +597,14 @@ Proof.
       apply map_eq_nil in Hends. rewrite Hends.
       destruct (IH (w ++ [c]) s' t' fuel Hh' Hs' Hw') as (r & it' & Hr & Hm).
       { pose proof (enc_cons_length c cs). lia. }
+      { rewrite Hlen. lia. }
       rewrite bo_app in Hr. unfold bo at 3 in Hr. cbn [encode_utf8 flat_map] in Hr. rewrite app_nil_r in Hr.
       rewrite Nat.add_assoc in Hr. rewrite Hlen in Hm.
       replace (length w0 + S (length w))%nat with (S (length w0 + length w)) in Hm by lia.
       exists r, it'. split; [exact Hr|].
       destruct (first_end V pvs h (length w0) (seq (S (S (length w0 + length w))) (length cs))) as [x|]; [|exact Hm].
-      destruct Hm as (m & H1 & H2 & H3 & H4 & H5 & H6). exists m.
-      split; [exact H1|]. split; [exact H2|]. split; [exact H3|]. split; [lia|]. split; assumption.
+      destruct Hm as (m & H1 & H2 & H3 & H4 & H5 & H6 & H7). exists m.
+      split; [exact H1|]. split; [exact H2|]. split; [exact H3|]. split; [lia|]. split; [assumption|]. split; assumption.
     + apply cchain_cons in Hch as (Hp & Hout & _).
       rewrite (proj2 (N.eqb_neq _ _) Hp). unfold outat, cwc_outat in Hout. rewrite Hout. cbn [bind].
       cbn [map] in Hends.
@@ -544,7 +627,7 @@ Proof.
         assert (In (o_length o, o_value o) (sufpats (w ++ [c]))) as Hin by (rewrite <- Hmap; left; reflexivity).
         apply sufpats_blen in Hin. cbn [fst] in Hin. rewrite bo_app in Hin. unfold bo at 2 in Hin.
         cbn [encode_utf8 flat_map] in Hin. rewrite app_nil_r in Hin. lia. }
-      split; [lia|]. split; [|lia].
+      split; [lia|]. split; [|split; [lia|cbn [f_ticks]; lia]].
       replace (S (length w0 + length w)) with (length (w0 ++ w ++ [c])) by (rewrite !app_length; cbn [length]; lia).
       unfold h. replace (w0 ++ w ++ c :: cs) with ((w0 ++ w ++ [c]) ++ cs) by (rewrite <- !app_assoc; reflexivity).
       rewrite cskipn_app_exact. reflexivity.
@@ -555,41 +638,52 @@ Definition cfind_it_at (rest : list N) (pulled : nat) (t : N) : find_it :=
 
 Lemma cfind_run h : Forall scalar h -> forall n from k t,
   (from <= length h)%nat -> (length h - from < n)%nat -> (n <= k)%nat ->
+  (N.to_nat t <= 2 * from)%nat ->
   exists ms it', drain V cfind_next' k (cfind_it_at (encode_utf8 (skipn from h)) (bo (firstn from h)) t) = Ok (ms, it')
                  /\ map (BwCert.tr_m V) ms = map (to_bytes h) (spec_find_from V n pvs h from)
-                 /\ Forall (fun m => (N.to_nat (m_length m) <= m_end m)%nat) ms.
+                 /\ Forall (fun m => (N.to_nat (m_length m) <= m_end m)%nat) ms
+                 /\ (N.to_nat (f_ticks it') <= 2 * length h)%nat.
 Proof.
-  intros Hs. induction n as [|n IH]; intros from k t Hf Hn Hk; [lia|].
+  intros Hs. induction n as [|n IH]; intros from k t Hf Hn Hk Hphi; [lia|].
   destruct k as [|k]; [lia|].
   assert (Hh : h = firstn from h ++ [] ++ skipn from h) by (cbn [app]; symmetry; apply firstn_skipn).
   assert (Hl0 : length (firstn from h) = from) by (rewrite firstn_length; lia).
   assert (Hss : Forall scalar (skipn from h)).
   { rewrite Forall_forall in *. intros x Hx. apply Hs. rewrite <- (firstn_skipn from h). apply in_or_app. right. exact Hx. }
   destruct (cfind_scan_spec h (firstn from h) (skipn from h) [] ROOT t (S (length (encode_utf8 (skipn from h)))) Hh Hss cwalk_root0)
-    as (r & it1 & Hr & Hm); [lia|].
+    as (r & it1 & Hr & Hm); [lia|rewrite Hl0; cbn; lia|].
   rewrite Hl0 in Hm. cbn [length] in Hm. rewrite Nat.add_0_r in Hm. rewrite skipn_length in Hm.
   unfold bo at 2 in Hr. cbn [encode_utf8 flat_map length] in Hr. rewrite Nat.add_0_r in Hr.
   cbn [drain spec_find_from]. unfold cfind_next at 1, cfind_it_at. cbn [f_src s_rest s_pulled f_ticks].
   rewrite Hr. cbn [bind].
   destruct (first_end V pvs h from (seq (S from) (length h - from))) as [[[st e] v]|].
-  - destruct Hm as (m & H1 & H2 & H3 & H4 & H5 & H6). subst r. cbn [fst snd] in H4, H5, H6.
-    destruct (IH e k (f_ticks it1)) as (ms & it' & Hd & Hsp & Hall); try lia.
+  - destruct Hm as (m & H1 & H2 & H3 & H4 & H5 & H6 & H7). subst r. cbn [fst snd] in H4, H5, H6, H7.
+    destruct (IH e k (f_ticks it1)) as (ms & it' & Hd & Hsp & Hall & Ht); try lia.
     destruct it1 as [[rest1 p1] t1]. cbn [f_src s_rest s_pulled f_ticks] in *. subst rest1 p1.
     unfold cfind_it_at in Hd. rewrite Hd. cbn [bind].
-    exists (m :: ms), it'. split; [reflexivity|]. split; [|constructor; assumption].
+    exists (m :: ms), it'. split; [reflexivity|]. split; [|split; [constructor; assumption|exact Ht]].
     cbn [map]. rewrite H2, Hsp. reflexivity.
-  - subst r. exists [], it1. repeat split. constructor.
+  - destruct Hm as [-> Ht]. exists [], it1. repeat split; [constructor|exact Ht].
 Qed.
 
 Theorem cw_find_correct_lemma cs : Forall scalar cs ->
   cw_find_iter V A (encode_utf8 cs) = Ok (map (to_bytes cs) (spec_find V pvs cs)).
 Proof.
   intros Hs. unfold cw_find_iter. rewrite ckind_std. unfold run_iter.
-  destruct (cfind_run cs Hs (S (length cs)) 0%nat (S (S (length (encode_utf8 cs)))) 0) as (ms & it' & Hd & Hsp & Hall); try lia.
+  destruct (cfind_run cs Hs (S (length cs)) 0%nat (S (S (length (encode_utf8 cs)))) 0) as (ms & it' & Hd & Hsp & Hall & _); try lia.
   { pose proof (enc_len_ge cs). lia. }
   unfold find_init, src_of. unfold cfind_it_at in Hd. change (bo (firstn 0 cs)) with 0%nat in Hd. change (skipn 0 cs) with cs in Hd.
   fold sget oget tget nslots. rewrite Hd. cbn [bind]. rewrite (triples_ok V ms Hall).
   rewrite Hsp. reflexivity.
+Qed.
+
+Theorem cw_find_linear_lemma cs : Forall scalar cs ->
+  exists ms it', drain V cfind_next' (S (S (length (encode_utf8 cs)))) (find_init (encode_utf8 cs)) = Ok (ms, it')
+                 /\ (N.to_nat (f_ticks it') <= 2 * length cs)%nat.
+Proof.
+  intros Hs. destruct (cfind_run cs Hs (S (length cs)) 0%nat (S (S (length (encode_utf8 cs)))) 0) as (ms & it' & Hd & _ & _ & Ht); try lia.
+  { pose proof (enc_len_ge cs). lia. }
+  unfold cfind_it_at in Hd. change (bo (firstn 0 cs)) with 0%nat in Hd. change (skipn 0 cs) with cs in Hd. eauto.
 Qed.
 
 End CwCert.
